@@ -27,7 +27,7 @@ func ApplyLex(name string, b []byte) []byte {
 
 // LexNames lists the transforms in a fixed order.
 var LexNames = []string{"xml-decl", "comment-before-root", "pi-before-root", "comment-after-root",
-	"single-quotes", "attr-order", "tag-whitespace", "expand-empty", "charref-text", "cdata-text", "charref-attr"}
+	"single-quotes", "attr-order", "tag-whitespace", "expand-empty", "charref-text", "cdata-text", "charref-attr", "bom"}
 
 var lexers = map[string]func([]byte) []byte{
 	"xml-decl":            func(b []byte) []byte { return append([]byte("<?xml version=\"1.0\" encoding=\"UTF-8\"?>\n"), b...) },
@@ -41,6 +41,8 @@ var lexers = map[string]func([]byte) []byte{
 	"charref-text":        func(b []byte) []byte { return mapText(b, textCharRef) },
 	"cdata-text":          func(b []byte) []byte { return mapText(b, textCDATA) },
 	"charref-attr":        func(b []byte) []byte { return mapTags(b, tagCharRefAttr) },
+	// a UTF-8 byte order mark before everything else (XML 1.0, 4.3.3)
+	"bom": func(b []byte) []byte { return append([]byte("\xef\xbb\xbf"), b...) },
 }
 
 // segment kinds of a serialised document
